@@ -41,6 +41,10 @@ type c14Item struct {
 	Rel  int    `json:"r,omitempty"`
 	Name int    `json:"n,omitempty"`
 	ID   uint32 `json:"id,omitempty"`
+	// floods only: stop at the very message whose clock line makes the
+	// snapshotter compact its file, and end the incarnation there (nothing
+	// recorded after the compaction that could make up for what it lost)
+	Stop bool `json:"stop,omitempty"`
 }
 
 type c14Case struct {
@@ -71,11 +75,21 @@ func genC14(t *rapid.T) c14Case {
 		// (a flood of one kind; what the file said about the OTHER kind has to
 		// survive it and still bind the incarnation after it).
 		if p > 0 && p < np-1 && rapid.IntRange(0, 3).Draw(t, "flood") == 0 {
-			fl := c14Item{Kind: 7 + rapid.IntRange(0, 1).Draw(t, "floodkind")}
+			fl := c14Item{Kind: 7 + rapid.IntRange(0, 1).Draw(t, "floodkind"), Stop: rapid.Bool().Draw(t, "floodstop")}
 			at := rapid.IntRange(0, len(items)).Draw(t, "floodat")
 			items = append(items[:at], append([]c14Item{fl}, items[at:]...)...)
 		}
 		c.Phases = append(c.Phases, items)
+	}
+	// after a flood that stops at the compacting message the next incarnation
+	// starts with the newest message of that flood again (recorded maximum + 0)
+	for p := 0; p+1 < len(c.Phases); p++ {
+		for _, it := range c.Phases[p] {
+			if (it.Kind == 7 || it.Kind == 8) && it.Stop {
+				again := c14Item{Kind: it.Kind - 7, Mode: 1, Rel: 0, Name: 0, ID: 77}
+				c.Phases[p+1] = append([]c14Item{again}, c.Phases[p+1]...)
+			}
+		}
 	}
 	return c
 }
@@ -132,7 +146,7 @@ func bodyC14(c c14Case, x *vkit.Ctx) {
 	var evMax, qMax uint64
 	hasEv, hasQ := false, false
 	ntEq, ntPlus1, oldSent, newSent, complete := false, false, 0, 0, true
-	floods, compactions, wentBack := 0, 0, false
+	floods, compactions, wentBack, lostRecord := 0, 0, false, false
 	var phaseMaxDelivered [2]uint64
 
 	for pi, items := range c.Phases {
@@ -293,11 +307,34 @@ func bodyC14(c c14Case, x *vkit.Ctx) {
 				caughtUp := func(slack uint64, sent uint64) bool {
 					return waitUntil(n, waitCap, absorb, func() bool { return bad || uint64(floodSeen-seen0)+slack >= sent })
 				}
+				fileID := func() os.FileInfo { fi, _ := os.Stat(snap); return fi }
+				file0 := fileID()
+				stoppedAtCompaction := false
 				for i := uint64(0); i < count && !bad; i++ {
 					if it.Kind == 7 {
 						n.Delegate.NotifyMsg(encUserEvent(clk+i, "flood", nil))
 					} else {
 						n.Delegate.NotifyMsg(encQuery(clk+i, 77, "flood", 0))
+					}
+					if it.Stop && i+400 >= count && sn != nil && file0 != nil {
+						// close to the size limit: one message at a time, and after each
+						// (received by the application, taken by the snapshotter, a moment
+						// for the append) look whether the file has been replaced
+						if !caughtUp(0, i+1) {
+							x.Inconclusive("flood: the application channel fell behind")
+							return
+						}
+						spins, deadline := 0, time.Now().Add(waitCap)
+						for sn.VerifBacklog() > 0 && time.Now().Before(deadline) {
+							spin(&spins)
+						}
+						time.Sleep(300 * time.Microsecond)
+						if fi := fileID(); fi != nil && !os.SameFile(file0, fi) {
+							stoppedAtCompaction = true
+							count = i + 1
+							break
+						}
+						continue
 					}
 					if i%128 == 127 {
 						if !caughtUp(128, i+1) {
@@ -318,6 +355,10 @@ func bodyC14(c c14Case, x *vkit.Ctx) {
 					return
 				}
 				floods++
+				if stoppedAtCompaction {
+					x.Label("flood-stopped-at-the-compacting-message")
+					break
+				}
 				continue
 			}
 			switch it.Kind {
@@ -430,11 +471,13 @@ func bodyC14(c c14Case, x *vkit.Ctx) {
 			return
 		}
 		// let the snapshotter take what is in flight, then stop without leaving
+		drained := false
 		if sn := n.Serf.VerifSnapshotter(); sn != nil {
 			spins, deadline := 0, time.Now().Add(waitCap)
 			for sn.VerifBacklog() > 0 && time.Now().Before(deadline) {
 				spin(&spins)
 			}
+			drained = sn.VerifBacklog() == 0
 		}
 		stop()
 		if floods > floodsBefore {
@@ -454,6 +497,21 @@ func bodyC14(c c14Case, x *vkit.Ctx) {
 		// this one lacks was still "recorded in the snapshot before the restart".
 		if (he && ev < evMax) || (hasEv && !he) || (hq && q < qMax) || (hasQ && !hq) {
 			wentBack = true
+		}
+		// What the application received in this life went through the snapshot
+		// stage first, which offers every event to the recorder before it hands it
+		// on; the recorder's queue (2048) never held more than a few hundred (the
+		// floods are paced on it) and was empty before the stop, and the stop
+		// waits for the recorder. So the newest event and query time received
+		// (times start at 1) were recorded in the snapshot before this restart,
+		// whether or not the file still says so: they bind the next life as well.
+		if drained {
+			if d := phaseMaxDelivered[0]; d > 0 && (!he || ev < d) {
+				ev, he, lostRecord = d, true, true
+			}
+			if d := phaseMaxDelivered[1]; d > 0 && (!hq || q < d) {
+				q, hq, lostRecord = d, true, true
+			}
 		}
 		if he {
 			evMax, hasEv = max(evMax, ev), true
@@ -480,6 +538,9 @@ func bodyC14(c c14Case, x *vkit.Ctx) {
 	}
 	if wentBack {
 		x.Label("recorded-maximum-went-back")
+	}
+	if lostRecord {
+		x.Label("file-lacks-a-time-that-was-recorded")
 	}
 	if floods > 0 {
 		x.Label("flood")
